@@ -37,6 +37,8 @@ class Ev:
 class Interp:
     def __init__(self, fi, consts, module=None):
         self.fi = fi
+        from ..bytesnorm import normalise as _bn
+        self.fnode = _bn(fi.node)     # pieces collected in lists / joined comprehensions / encoders -> buffer appends
         self.module = module          # for calls of module-level helper functions (interpreted in place)
         self.active = []
         self.inline_writers = []      # little-endian writes written in place
@@ -166,7 +168,7 @@ class Interp:
 
     # ---- discovery of writer helpers
     def scan_defs(self, fnode=None):
-        for s in (fnode or self.fi.node).body:
+        for s in (fnode or self.fnode).body:
             if isinstance(s, ast.FunctionDef):
                 w = self._as_writer(s)
                 if w:
@@ -197,7 +199,7 @@ class Interp:
     # ---- execution
     def run(self):
         self.scan_defs()
-        self.block(self.fi.node.body, None)
+        self.block(self.fnode.body, None)
 
     def block(self, stmts, sink):
         for s in stmts:
@@ -691,6 +693,8 @@ def check(repo, rep, tier):
     def canonical32(ev, what):
         """R-C10-1 for one field-size write."""
         v = ev.value
+        while isinstance(v, ast.Call) and norm(v.func) == "int" and len(v.args) == 1 and not v.keywords:
+            v = v.args[0]          # int(E) of an integer expression is E
         where = fi.loc(ev.node)
         t = norm(v)
         l = int_literal(v)
